@@ -47,6 +47,10 @@ def make_tracked(registry):
     return TrackedGraph
 
 
+ANNOTATION_TYPE = [tuple]   # type used for the joint_degree annotation of the networks handed to rewire()
+EDGE_ORDER = [None]         # None = sorted (canonical); "reversed"; or an int seed for a shuffled insertion order
+
+
 def build_state_graph(state, cls):
     """Canonical construction of a state: sorted nodes, sorted edges."""
     N_ = NN()
@@ -54,7 +58,21 @@ def build_state_graph(state, cls):
     G = cls()
     for n, jd in nodes:
         G.add_node(n, **{})
-        G.nodes[n][N_.JOINT_DEGREE] = jd
+        G.nodes[n][N_.JOINT_DEGREE] = ANNOTATION_TYPE[0](jd)
+    edges = list(edges)
+    if EDGE_ORDER[0] == "reversed":
+        edges.reverse()
+    elif isinstance(EDGE_ORDER[0], int):
+        # a private deterministic permutation (LCG): an input variation, not part of the explored nondeterminism
+        x = [EDGE_ORDER[0] * 2654435761 % (1 << 32) or 1]
+
+        def nxt(n):
+            x[0] = (x[0] * 1103515245 + 12345) % (1 << 31)
+            return (x[0] >> 8) % n
+        for i in range(len(edges) - 1, 0, -1):
+            j = nxt(i + 1)
+            edges[i], edges[j] = edges[j], edges[i]
+        edges = [(v, u, t, m) if nxt(2) else (u, v, t, m) for u, v, t, m in edges]
     for u, v, top, mid in edges:
         G.add_edge(u, v)
         G.edges[u, v][N_.TOPOLOGY] = top
@@ -91,6 +109,12 @@ def mixing(state, names):
 def make_target(state, names, kind="uniform", removed=(), zeroed=()):
     """Target matrices: a dict name -> {a+b: weight}; `removed`/`zeroed` are sets of (name, frozenset{a,b})."""
     keys = excess_keys(state, names)
+    if kind == "uniform-all-keys":
+        # every topology's matrix carries every pair of excess tuples that occurs for ANY topology (super-full
+        # support: entries that no edge of that topology can realise are harmless for a correct implementation)
+        union = sorted({k for n in names for k in keys[n]})
+        keys = {n: union for n in names}
+        kind = "uniform"
     out = {}
     for n in names:
         ks = keys[n]
